@@ -10,7 +10,6 @@ import (
 	"context"
 	"errors"
 	"fmt"
-	"io"
 	"strconv"
 	"testing"
 	"time"
@@ -199,8 +198,10 @@ func c06Run(t *testing.T, c c06Case) (out c06Outcome, verr error, herr error) {
 			cs.FailSend(status.Error(codes.Unavailable, "transport is closing"))
 			ss.Push(mkAck())
 		case "srcSendEOF":
-			// the source has already finished the RPC: gRPC reports that to a sender as exactly io.EOF
-			cs.FailSend(io.EOF)
+			// the source has already finished the RPC and the forwarder learns of it through a Send first: gRPC reports
+			// that to a sender as exactly io.EOF (the status itself is delivered by Recv after the messages that
+			// preceded it)
+			cs.PushEOF()
 			ss.Push(mkAck())
 		case "srcUnknownKind":
 			cs.Push(&vfResp{})
@@ -247,11 +248,11 @@ func c06Run(t *testing.T, c c06Case) (out c06Outcome, verr error, herr error) {
 		if verr == nil {
 			// (b) completeness of a direction that ends by its own clean EOF / error after its last message
 			switch c.Term {
-			case "srcEOF", "srcErr":
+			case "srcEOF", "srcErr", "srcErrCanceled", "srcSendEOF":
 				// (with the source face stalled the forwarder learns of the source's end through its blocked sync-state Send
 				// failing with io.EOF - as grpc-go does once the status has arrived - and stops at once: buffered messages
 				// that it had not relayed yet are dropped with the stream, the initiator re-opens from its acknowledged level)
-				if !initStalled && !srcStalled && len(gotInit) < srcBefore {
+				if !initStalled && len(gotInit) < srcBefore {
 					verr = fmt.Errorf("source ended (%s) after %d messages but the initiator got only %d", c.Term, srcBefore, len(gotInit))
 				}
 			case "initEOF", "initErr":
